@@ -124,6 +124,13 @@ class HashModel:
     return t
 
 
+class PDict:
+  """keyword arguments of one call: concrete names (call order), symbolic values"""
+
+  def __init__(self, d):
+    self.d = d
+
+
 class _Return(Exception):
   def __init__(self, v):
     self.v = v
@@ -149,54 +156,79 @@ class KeyEval:
       raise PyUnsupported("cache_kernel: expected exactly one nested wrapper function")
     self.wrapper = wrappers[0]
     a = self.wrapper.args
-    if a.args or a.kwonlyargs or a.kwarg or not a.vararg:
-      raise PyUnsupported("cache_kernel wrapper signature is no longer (*args)")
+    if a.args or a.kwonlyargs or not a.vararg:
+      raise PyUnsupported("cache_kernel wrapper signature is neither (*args) nor (*args, **kwargs)")
     self.vararg = a.vararg.arg
+    self.kwarg = a.kwarg.arg if a.kwarg else None  # wrapper accepts keyword arguments
+    self.forwards_kwargs = False  # ... and hands them to the builder (set by check_lookup)
     self.hm = hm
     self.cache_name = None
+    self.strids = {}
+
+  def strid(self, text):
+    """concrete strings (keyword names) get ids disjoint from the builder-name ids (>= 0)"""
+    return self.strids.setdefault(text, -1 - len(self.strids))
 
   # -- statements
-  def key_for(self, name_pv, args):
-    """-> python tuple of z3 Int terms: the cache key the real wrapper computes for builder `name`, arguments `args`"""
+  def key_for(self, name_pv, args, kwargs=None):
+    """-> the cache key the real wrapper computes for builder `name`, positional `args` and keyword `kwargs` (dict
+    name -> PV, in call order): a nested structure of python tuples whose leaves are z3 Int terms / python str"""
     env = {self.func_param: FuncRef(name_pv), self.vararg: tuple(args)}
+    if kwargs and self.kwarg is None:
+      raise PyUnsupported("keyword arguments given but the wrapper takes none (the real call raises TypeError)")
+    if self.kwarg is not None:
+      env[self.kwarg] = PDict(dict(kwargs or {}))
     body = self.wrapper.body
     for k, s in enumerate(body):
       if isinstance(s, ast.Assign) and len(s.targets) == 1 and isinstance(s.targets[0], ast.Name) and s.targets[0].id == "key":
         env["key"] = self.expr(s.value, env)
         self.check_lookup(body[k + 1 :])
-        return self.flat_key(env["key"])
+        return self.norm_key(env["key"])
       self.stmt(s, env)
     raise PyUnsupported("cache_kernel wrapper: no `key = ...` assignment found")
 
-  def flat_key(self, key):
+  def norm_key(self, key):
+    """dict keys compare structurally: tuples componentwise, numbers by value, str by content; other objects by hash"""
     if isinstance(key, tuple):
-      out = []
-      for c in key:
-        if isinstance(c, (tuple, PV)):
-          out.append(self.hm.hash(c))  # dict lookup hashes / compares nested values: equal iff hashes+values equal (model: hash)
-        elif isinstance(c, bool):
-          out.append(z3.IntVal(int(c)))
-        elif isinstance(c, int):
-          out.append(z3.IntVal(c))
-        elif z3.is_expr(c):
-          out.append(c)
-        else:
-          raise PyUnsupported(f"key component {c!r}")
-      return tuple(out)
+      if key and isinstance(key[0], str) and key[0] == "gen" and len(key) == 2 and isinstance(key[1], list):
+        raise PyUnsupported("generator object used as a key component")
+      return tuple(self.norm_key(c) for c in key)
+    if isinstance(key, list):
+      raise PyUnsupported("list inside the key (unhashable)")
+    if isinstance(key, bool):
+      return z3.IntVal(int(key))
+    if isinstance(key, int):
+      return z3.IntVal(key)
+    if isinstance(key, str):
+      return key
+    if isinstance(key, PV):
+      if key.kind == "num":
+        return key.v
+      if key.kind == "str":
+        return self.hm.hash(key)
+      return self.hm.hash(key)
     if z3.is_expr(key):
-      return (key,)
-    raise PyUnsupported(f"key of type {type(key).__name__}")
+      return key
+    raise PyUnsupported(f"key component {key!r}")
 
   def check_lookup(self, rest):
-    """the remainder must be the plain memo lookup: if key not in C: C[key] = func(*args); return C[key]"""
-    want = "if key not in {C}:\n    {C}[key] = {f}(*{a})\nreturn {C}[key]"
+    """the remainder must be the plain memo lookup: if key not in C: C[key] = func(*args[, **kwargs]); return C[key]"""
     got = "\n".join(ast.unparse(s) for s in rest)
     for n in ast.walk(ast.Module(body=list(rest), type_ignores=[])):
       if isinstance(n, ast.Subscript) and isinstance(n.value, ast.Name):
         self.cache_name = n.value.id
         break
-    if self.cache_name is None or got != want.format(C=self.cache_name, f=self.func_param, a=self.vararg):
+    if self.cache_name is None:
       raise PyUnsupported(f"cache_kernel lookup code changed shape, model not applicable:\n{got}")
+    want = "if key not in {C}:\n    {C}[key] = {f}({call})\nreturn {C}[key]"
+    plain = want.format(C=self.cache_name, f=self.func_param, call=f"*{self.vararg}")
+    if got == plain:
+      self.forwards_kwargs = False
+      return
+    if self.kwarg is not None and got == want.format(C=self.cache_name, f=self.func_param, call=f"*{self.vararg}, **{self.kwarg}"):
+      self.forwards_kwargs = True
+      return
+    raise PyUnsupported(f"cache_kernel lookup code changed shape, model not applicable:\n{got}")
 
   def stmt(self, s, env):
     if isinstance(s, ast.FunctionDef):
@@ -223,7 +255,7 @@ class KeyEval:
     if isinstance(e, ast.Name):
       if e.id in env:
         return env[e.id]
-      if e.id in ("list", "tuple", "int", "bool", "float", "str", "hash", "hasattr", "isinstance", "len", "id", "type"):
+      if e.id in ("list", "tuple", "int", "bool", "float", "str", "hash", "hasattr", "isinstance", "len", "id", "type", "sorted", "dict"):
         return ("builtin", e.id)
       raise PyUnsupported(f"name {e.id}")
     if isinstance(e, ast.Attribute):
@@ -241,17 +273,28 @@ class KeyEval:
         return a + b
       raise PyUnsupported(f"+ on {a!r}, {b!r}")
     if isinstance(e, (ast.GeneratorExp, ast.ListComp)):
-      if len(e.generators) != 1 or e.generators[0].ifs or not isinstance(e.generators[0].target, ast.Name):
+      tgt = e.generators[0].target
+      names = [tgt.id] if isinstance(tgt, ast.Name) else ([t.id for t in tgt.elts] if isinstance(tgt, ast.Tuple) and all(isinstance(t, ast.Name) for t in tgt.elts) else None)
+      if len(e.generators) != 1 or e.generators[0].ifs or names is None:
         raise PyUnsupported("comprehension shape")
       it = self.expr(e.generators[0].iter, env)
       if isinstance(it, PV) and it.kind in ("list", "tuple"):
         it = it.elems
+      if isinstance(it, PDict):
+        it = list(it.d.keys())
+      if isinstance(it, tuple) and len(it) == 2 and isinstance(it[0], str) and it[0] == "gen":
+        it = it[1]
       if not isinstance(it, (tuple, list)):
         raise PyUnsupported("comprehension over non-sequence")
       out = []
       for x in it:
         env2 = dict(env)
-        env2[e.generators[0].target.id] = x
+        if isinstance(tgt, ast.Name):
+          env2[tgt.id] = x
+        else:
+          if not isinstance(x, (tuple, list)) or len(x) != len(names):
+            raise PyUnsupported("tuple unpacking in comprehension")
+          env2.update(zip(names, x))
         out.append(self.expr(e.elt, env2))
       return ("gen", out) if isinstance(e, ast.GeneratorExp) else out
     if isinstance(e, ast.Subscript):
@@ -277,6 +320,13 @@ class KeyEval:
   def call(self, e, env):
     if e.keywords:
       raise PyUnsupported("keyword call")
+    if isinstance(e.func, ast.Attribute) and e.func.attr in ("items", "values", "keys") and not e.args:
+      v = self.expr(e.func.value, env)
+      if isinstance(v, PDict):
+        if e.func.attr == "items":
+          return [(k, x) for k, x in v.d.items()]
+        return list(v.d.values()) if e.func.attr == "values" else list(v.d.keys())
+      raise PyUnsupported(f".{e.func.attr}() of {v!r}")
     f = self.expr(e.func, env)
     args = [self.expr(a, env) for a in e.args]
     if isinstance(f, LocalFunc):
@@ -289,7 +339,7 @@ class KeyEval:
       except _Return as r:
         return r.v
       return None
-    if isinstance(f, tuple) and f[0] == "builtin":
+    if isinstance(f, tuple) and len(f) == 2 and isinstance(f[0], str) and f[0] == "builtin":
       nm = f[1]
       if nm == "hasattr":
         v, attr = args
@@ -315,19 +365,34 @@ class KeyEval:
         return res
       if nm == "hash":
         (v,) = args
-        if isinstance(v, tuple) and v and v[0] == "gen":
+        if isinstance(v, str):
+          return self.hm.hash(pv_str(self.strid(v)))
+        if isinstance(v, tuple) and len(v) == 2 and isinstance(v[0], str) and v[0] == "gen":
           raise PyUnsupported("hash of a generator")
         return self.hm.hash(v)
       if nm == "tuple":
         (v,) = args
-        if isinstance(v, tuple) and v and v[0] == "gen":
+        if isinstance(v, tuple) and len(v) == 2 and isinstance(v[0], str) and v[0] == "gen":
           return tuple(v[1])
         if isinstance(v, PV) and v.kind in ("list", "tuple"):
           return pv_tuple(v.elems)
         if isinstance(v, (list, tuple)):
           return tuple(v)
+      if nm == "sorted":
+        (v,) = args
+        if isinstance(v, tuple) and len(v) == 2 and isinstance(v[0], str) and v[0] == "gen":
+          v = v[1]
+        if isinstance(v, PDict):
+          v = list(v.d.keys())
+        if isinstance(v, (list, tuple)) and all(isinstance(x, str) or (isinstance(x, tuple) and x and isinstance(x[0], str)) for x in v):
+          ks = [x if isinstance(x, str) else x[0] for x in v]
+          if len(set(ks)) == len(ks):
+            return sorted(v, key=lambda x: x if isinstance(x, str) else x[0])
+        raise PyUnsupported("sorted() of values whose order is symbolic")
       if nm == "len":
         (v,) = args
+        if isinstance(v, PDict):
+          return len(v.d)
         if isinstance(v, PV) and v.kind in ("list", "tuple"):
           return len(v.elems)
         if isinstance(v, (list, tuple)):
@@ -337,9 +402,22 @@ class KeyEval:
 
 
 def keys_equal(k1, k2):
-  if len(k1) != len(k2):
-    return z3.BoolVal(False)
-  return z3.And(*[a == b for a, b in zip(k1, k2)]) if k1 else z3.BoolVal(True)
+  """structural equality of two keys (what the dict lookup decides)"""
+  if isinstance(k1, tuple) or isinstance(k2, tuple):
+    if not (isinstance(k1, tuple) and isinstance(k2, tuple)) or len(k1) != len(k2):
+      return z3.BoolVal(False)
+    return z3.And(*[keys_equal(a, b) for a, b in zip(k1, k2)]) if k1 else z3.BoolVal(True)
+  if isinstance(k1, str) or isinstance(k2, str):
+    return z3.BoolVal(isinstance(k1, str) and isinstance(k2, str) and k1 == k2)
+  return k1 == k2
+
+
+def key_concrete(model, key, ev):
+  if isinstance(key, tuple):
+    return tuple(key_concrete(model, c, ev) for c in key)
+  if isinstance(key, str):
+    return key
+  return ev(model, key)
 
 
 # --------------------------------------------------------------------------------------------- builder inventory (AST)
@@ -379,4 +457,26 @@ def scan_builders(src_dir):
             reads[x.id].add("<bare>")
       defaults = [ast.literal_eval(d) for d in n.args.defaults]
       out.append({"name": n.name, "module": os.path.basename(f)[:-3], "lineno": n.lineno, "params": params, "ann": ann, "defaults": defaults, "reads": {k: sorted(v) for k, v in reads.items()}})
+  return out
+
+
+def scan_callsites(src_dir, names):
+  """every call of a @cache_kernel builder in the sources: name -> set of (number of positional args, keyword names in call order)"""
+  import glob
+  import os
+
+  out = {n: set() for n in names}
+  for f in sorted(glob.glob(os.path.join(src_dir, "*.py"))):
+    if f.endswith("_test.py"):
+      continue
+    tree = ast.parse(open(f).read())
+    for n in ast.walk(tree):
+      if not isinstance(n, ast.Call):
+        continue
+      nm = n.func.id if isinstance(n.func, ast.Name) else (n.func.attr if isinstance(n.func, ast.Attribute) else None)
+      if nm not in out:
+        continue
+      if any(isinstance(a, ast.Starred) for a in n.args) or any(k.arg is None for k in n.keywords):
+        raise PyUnsupported(f"{os.path.basename(f)}:{n.lineno}: builder {nm} called with *args / **kwargs unpacking")
+      out[nm].add((len(n.args), tuple(k.arg for k in n.keywords)))
   return out
